@@ -34,6 +34,7 @@ def c6(ctx):
 
 
 def c5(ctx):
+    serial.str_is_serialize(ctx)
     serial.null_sweep(ctx, 'ssc')
     serial.serializer_raw_text(ctx, 'ssc')
     serial.layout(ctx)
